@@ -112,14 +112,19 @@ TranslateF(f, dc, dr) == [i \in DOMAIN f |-> Translate(f[i], dc, dr)]
 (* ---- structural edits (C08) ------------------------------------------------ *)
 SheetOf(t, own) == IF t.qc = <<>> THEN own ELSE Cd!Concat(t.qc)
 OnAxis(g, ax) == IF ax = "row" THEN HasRows(g) ELSE HasCols(g)
-Lo(g, ax) == IF ax = "row" THEN g.r1 ELSE g.c1
-Hi(g, ax) == IF Two(g) THEN (IF ax = "row" THEN g.r2 ELSE g.c2) ELSE Lo(g, ax)
-SetLoHi(g, ax, lo, hi) ==
+(* first and second corner on an axis; a translation with mixed $ can leave them in either order *)
+Fst(g, ax) == IF ax = "row" THEN g.r1 ELSE g.c1
+Snd(g, ax) == IF Two(g) THEN (IF ax = "row" THEN g.r2 ELSE g.c2) ELSE Fst(g, ax)
+Lo(g, ax) == IF Fst(g, ax) <= Snd(g, ax) THEN Fst(g, ax) ELSE Snd(g, ax)
+Hi(g, ax) == IF Fst(g, ax) <= Snd(g, ax) THEN Snd(g, ax) ELSE Fst(g, ax)
+SetLoHi(g, ax, lo, hi) ==        \* sets the first and the second corner on the axis
   IF ax = "row" THEN [g EXCEPT !.r1 = lo, !.r2 = IF Two(g) THEN hi ELSE @]
                 ELSE [g EXCEPT !.c1 = lo, !.c2 = IF Two(g) THEN hi ELSE @]
-InsG(g, ax, p, n) == IF OnAxis(g, ax) THEN SetLoHi(g, ax, InsIdx(Lo(g, ax), p, n), InsIdx(Hi(g, ax), p, n)) ELSE g
+InsG(g, ax, p, n) == IF OnAxis(g, ax) THEN SetLoHi(g, ax, InsIdx(Fst(g, ax), p, n), InsIdx(Snd(g, ax), p, n)) ELSE g
 GDeleted(g, ax, p, n) == OnAxis(g, ax) /\ Lo(g, ax) >= p /\ Hi(g, ax) < p + n
-RemG(g, ax, p, n) == IF OnAxis(g, ax) THEN SetLoHi(g, ax, ClipLo(Lo(g, ax), p, n), ClipHi(Hi(g, ax), p, n)) ELSE g
+RemG(g, ax, p, n) == IF ~OnAxis(g, ax) THEN g
+                     ELSE IF Fst(g, ax) <= Snd(g, ax) THEN SetLoHi(g, ax, ClipLo(Fst(g, ax), p, n), ClipHi(Snd(g, ax), p, n))
+                     ELSE SetLoHi(g, ax, ClipHi(Fst(g, ax), p, n), ClipLo(Snd(g, ax), p, n))      \* the low edge is the second corner
 
 (* the token belongs to the edited sheet: unqualified references belong to the formula's own sheet *)
 Applies(t, own, edited) == IsRef(t) /\ SheetOf(t, own) = edited
